@@ -5,6 +5,7 @@ CONSTANT MaxKindsWrapped = 7
 CONSTANT Wraps = {"none", "inline", "typed", "spread"}
 CONSTANT Orders = {"fwd", "rev"}
 CONSTANT Aliases = {FALSE, TRUE}
+CONSTANT HookWraps = {"none", "inline", "typed", "spread"}
 INIT Init
 NEXT Next
 INVARIANT ModelChecked
